@@ -83,3 +83,9 @@ VARIANTS += [
     M('C06', 'original-columns-joined-by-label', E(PC, "                if fname in list(self.df):\n                    out_df.insert(0, fname, self.df[fname])", "                if fname in list(self.df):\n                    out_df = self.df[[fname]].join(out_df)"),
       rule='C06-ALIGNED', key='join'),
 ]
+
+VARIANTS += [
+    M('C06', 'detected-is-none-without-failing-records', E(PC, "        return self.detection.obj if self.detection else None", "        return self.detection.obj if self.detection and self.detection.n_failing_records else None"),
+      rule='C06-DETECTED', key='failing=0'),
+    M('C06', 'detection-frame-shares-the-input-index', E(PC, "            index = df.index.copy()", "            index = df.index"), rule='C06-INPLACE', key='index-of-the-detection-frame'),
+]
